@@ -11,6 +11,7 @@
 -/
 import ICal.Lemmas.Params
 import ICal.Lemmas.BodiesParser
+import ICal.Lemmas.ParamsMore
 namespace ICal.C08
 
 /-- `,` `;` `:` are in QUOTABLE -/
@@ -123,6 +124,70 @@ example : canon sampleParams =
 example : Balanced ';' ("CN=\"x,;: y\"".toList) ∧ ¬ Balanced ';' ("CN=x;y".toList) := by decide
 example : ∃ c ∈ ['x', ',', ';', ':', ' ', 'y'], c = ',' ∨ c = ';' ∨ c = ':' := ⟨',', by decide, Or.inl rfl⟩
 example : ValueOk ['x', ',', ';', ':', ' ', 'y'] ∧ ¬ ValueOk ['a', '"'] ∧ ¬ ValueOk ['a', '\n'] := by decide
+
+/-! ## Clause pass (round 10) -/
+
+/-- "… so no other conforming parser splits it differently", for the colon that ends the
+    parameter part of a content line: the WHOLE text of `Parameters.to_ical` (either order) shows
+    no colon outside double quotes — for every value whatsoever, in the domain or not. -/
+theorem params_no_bare_colon (m : Params) (sorted : Bool)
+    (hk : ∀ kv ∈ m, validToken (upper kv.1) = true) : Balanced ':' (paramsToIcal m sorted) :=
+  paramsToIcal_balanced_colon m sorted hk
+
+example : Balanced ':' (paramsToIcal [(['C','N'], .one ['a', ':', '"', ':', 'b']), (['X'], .many [[':'], ['c']])] false) := by
+  decide
+
+/-- "The same values in the same order" with `sorted=False`: the parsed map lists the names in
+    insertion order, every value unchanged up to `canonVal`. -/
+theorem params_roundtrip_unsorted (m : Params) (hd : ParamDomain m) :
+    paramsFromIcal (paramsToIcal m false) false = some (m.map (fun kv => (kv.1, canonVal kv.2))) :=
+  fromIcal_toIcal_unsorted m hd
+
+example : ParamDomain [(['Z'], .one ['a', ',', 'b']), (['A'], .many [['x'], [';']])] := by decide
+
+/-- Names are compared case-insensitively, writing side: re-casing the stored names in any way
+    that keeps their upper-cased form does not change the text. -/
+theorem params_name_case_write (m : Params) (f : Str → Str) (hf : ∀ k, upper (f k) = upper k) :
+    paramsToIcal (m.map (fun kv => (f kv.1, kv.2))) false = paramsToIcal m false := by
+  unfold paramsToIcal
+  simp [List.map_map, Function.comp_def, hf]
+
+example : ∀ k, upper (upper k) = upper k := upper_idem
+example : paramsToIcal [(['c','n'], .one ['a']), (['X','-','y'], .one [])] false =
+    paramsToIcal [(['C','n'], .one ['a']), (['x','-','Y'], .one [])] false := by decide
+
+/-- Names are compared case-insensitively, reading side: two items whose names differ only in
+    letter case are read as the same (name, value), strict or not. -/
+theorem params_name_case_read (strict : Bool) (k k' v : Str) (hk : validToken k = true)
+    (hk' : validToken k' = true) (hu : upper k = upper k') :
+    parseParam strict (k ++ '=' :: v) = parseParam strict (k' ++ '=' :: v) :=
+  parseParam_name_case strict k k' v hk hk' hu
+
+example : parseParam false ("cn=a".toList) = parseParam false ("CN=a".toList) ∧
+    parseParam false ("cn=a".toList) = some (['C','N'], .one ['a']) := by decide
+
+/-- §5.3/1 spelled out: a one-element list and its element have the SAME text (no reader can tell
+    them apart — they are identified by `canonVal`), while a single string holding a comma is
+    written quoted and is read back as that one string, never as a list. -/
+theorem one_element_list_same_text (x : Str) : paramValue (.many [x]) = paramValue (.one x) := rfl
+
+theorem comma_string_stays_single (k x : Str) (hk : validToken k = true) (hu : upper k = k)
+    (hx : ValueOk x) (hc : ',' ∈ x) :
+    paramValue (.one x) = DQ :: x ++ [DQ] ∧
+    paramsFromIcal (paramsToIcal [(k, .one x)] true) false = some [(k, .one x)] := by
+  constructor
+  · have := dquote_quotes x ⟨',', hc, Or.inl rfl⟩
+    rw [rep1_of_not_mem DQ _ x hx.1] at this
+    exact this
+  · have hd : ParamDomain [(k, .one x)] := by
+      refine ⟨by simp, ?_⟩
+      intro kv hkv
+      simp only [List.mem_cons, List.not_mem_nil, or_false] at hkv
+      subst hkv; exact ⟨⟨hk, hu⟩, hx⟩
+    rw [params_roundtrip _ hd]
+    simp [canon, sortByKey, insertByKey, canonVal]
+
+example : ValueOk ['a', ',', 'b'] ∧ ',' ∈ ['a', ',', 'b'] := by decide
 
 /-! ## Regenerated function bodies = hand model
 
